@@ -61,14 +61,15 @@ MUTANTS = [
     ("m-c14-volume-order", "C14", FG,
      "        for o_rot in pos_volumes:\n            for b_rot in ori_volumes:\n                all_volumes.append(o_rot*(self.factor**3)*b_rot)",
      "        for b_rot in ori_volumes:\n            for o_rot in pos_volumes:\n                all_volumes.append(o_rot*(self.factor**3)*b_rot)",
-     "volumes enumerated rotation-major"),
+     "volumes enumerated rotation-major (expected survivor: Q is built from the same saved volumes, so detailed "
+     "balance w.r.t. the saved V_i holds whatever their order - the order clause is C02's)"),
     ("m-c14-no-transpose", "C14", TR, "eigs(self.matrix_to_decompose.T, k=k", "eigs(self.matrix_to_decompose, k=k",
      "right instead of left eigenvectors"),
     ("m-c14-no-sort", "C14", TR, "        idx = eigenval.argsort()[::-1]\n", "        idx = eigenval.argsort()\n",
      "eigenvalues ascending"),
     ("m-c14-dist-pos-only", "C14", FG, "            increments.append(increments[-1])\n            increments = np.array(increments)\n            my_diags",
      "            increments.append(increments[0])\n            increments = np.array(increments)\n            my_diags",
-     "radial distance diagonal padded with the first increment (harmless padding? expected survivor if unused)"),
+     "radial distance diagonal padded with the first increment (equivalent: the padded element is never used)"),
     # ---- C20
     ("m-c20-skiprows12", "C20", IO, "skiprows=13, header=None", "skiprows=12, header=None", "skiprows 12"),
     ("m-c20-skiprows14", "C20", IO, "skiprows=13, header=None", "skiprows=14, header=None", "skiprows 14"),
@@ -126,9 +127,13 @@ MUTANTS = [
      "        all_quaternions = random_quaternions(self.N)", "randomQ not seeded"),
     ("m-c08-no-seed-s", "C08", RO, "        np.random.seed(0)\n        return random_sphere_points(self.N)",
      "        return random_sphere_points(self.N)", "randomS not seeded"),
-    ("m-c08-no-seed-dense", "C08", VO, "        np.random.seed(1)\n", "", "helper points of the volume estimate not seeded"),
+    ("m-c08-no-seed-dense", "C08", VO, "        np.random.seed(1)\n", "",
+     "helper points of the volume estimate not seeded (expected survivor: every grid construction reseeds the global "
+     "generator with 0 or 15 immediately before, so the state at this point is fixed by the construction itself)"),
+    ("m-c08-no-seed15", "C08", PO, "        np.random.seed(15)\n", "", "index shuffle unseeded"),
     ("m-c08-seed15-level0", "C08", PO, "        np.random.seed(15)\n", "        if self.current_level == 0:\n            np.random.seed(15)\n",
-     "index shuffle seeded only at level 0"),
+     "index shuffle seeded only at level 0 (expected survivor: all levels of one grid are built inside one call, the "
+     "generator state at level k is fixed by the level-0 seed)"),
     ("m-c08-nonidempotent", "C08", VO, "np.array([ap for ap in self.additional_points if q_in_upper_sphere(ap)])",
      "np.array([ap for ap in self.additional_points[1:] if q_in_upper_sphere(ap)])", "helper points shrink at every call"),
     ("m-c08-module-cache", "C08", RO, "        while len(self.polytope.get_nodes()) < self.N:\n            self.polytope.divide_edges()\n        ordered_points = self.polytope.get_nodes(N=self.N, projection=True)\n        return ordered_points",
@@ -148,6 +153,9 @@ MUTANTS = [
      "hemisphere test with a coarse tolerance"),
     ("m-c18-no-seed15", "C18", PO, "        np.random.seed(15)\n", "", "index shuffle unseeded (indices still permanent: C18 expected survivor, C08 kills)"),
 ]
+
+
+TIER_OVERRIDE = {"m-c18-half-tol": "thorough"}
 
 
 def run(cmd, **kw):
@@ -195,14 +203,15 @@ def main():
                 t0 = time.monotonic()
                 env = dict(os.environ, VERIF_REPO=wt, VERIF_REPLAY_DIR=wt + "-replays")
                 env.pop("MOLGRI_VERIF_CHILD", None)
-                p = run([sys.executable, os.path.join(VERIF, "check.py"), prop, "--tier", args.tier, "--no-evidence"], env=env)
+                tier = TIER_OVERRIDE.get(mid, args.tier)
+                p = run([sys.executable, os.path.join(VERIF, "check.py"), prop, "--tier", tier, "--no-evidence"], env=env)
                 wall = time.monotonic() - t0
                 lines = [l for l in p.stdout.splitlines() if l.startswith(("VIOLATION", "HARNESS-ERROR"))]
                 status = {0: "survived", 1: "killed", 2: "harness-error"}.get(p.returncode, f"rc={p.returncode}")
                 oracle = ""
                 if lines and "oracle=" in lines[0]:
                     oracle = lines[0].split("oracle=")[1].split()[0]
-                rec = {"id": mid, "property": prop, "status": status, "oracle": oracle, "wall_s": round(wall, 1),
+                rec = {"id": mid, "property": prop, "tier": tier, "status": status, "oracle": oracle, "wall_s": round(wall, 1),
                        "first_line": (lines[0][:300] if lines else ""), "description": desc}
             done[mid] = rec
             print(json.dumps(rec), flush=True)
